@@ -96,6 +96,38 @@ func genC18(tier string) []Scenario {
 		sc := batchScn{name: fmt.Sprintf("action batch n=0 shape=%s", shapeNames[sh]), n: 0, c: 0, budget: 1, shape: sh, execMenu: okMenu, postMenu: posts, bound: 0, chkAction: true}
 		out = append(out, sc.scenario())
 	}
+	// a flow that has already run and is then given (or re-pointed to) a connection on the default
+	// action: the next run follows it
+	for _, form := range []string{"connection added after a run", "connection re-pointed after a run"} {
+		form := form
+		body := func() {
+			store := flyt.NewSharedStore()
+			var ran []string
+			mk := func(id string, act flyt.Action) flyt.Node {
+				return flyt.NewNode().WithPostFuncAny(func(context.Context, *flyt.SharedStore, any, any) (flyt.Action, error) {
+					ran = append(ran, id)
+					return act, nil
+				})
+			}
+			a, w1, w2 := mk("a", ""), mk("w1", "x"), mk("w2", "x") // a's post answers the EMPTY action
+			f := flyt.NewFlow(a)
+			if form == "connection re-pointed after a run" {
+				f.Connect(a, flyt.DefaultAction, w1)
+			}
+			if err := f.Run(ctxBackground(), store); err != nil {
+				core.Problem("%s: first run failed: %v", form, err)
+			}
+			f.Connect(a, flyt.DefaultAction, w2)
+			ran = nil
+			if err := f.Run(ctxBackground(), store); err != nil {
+				core.Problem("%s: second run failed: %v", form, err)
+			}
+			if fmt.Sprint(ran) != "[a w2]" {
+				core.Problem("%s: the second run visited %v, want [a w2]: the connection on the default action was not followed", form, ran)
+			}
+		}
+		out = append(out, Scenario{Name: "action default " + form, Bound: 0, Body: body, Check: stdCheck(func() string { return form })})
+	}
 	// degenerate flows used as nodes: no start node at all, or a start node whose only edge is nil.
 	// Whatever flyt makes of them, "success with an empty action" is not an option.
 	for _, form := range []string{"NewFlow(nil)", "NewFlow(nil) inside a flow", "NewFlow(nil) retried"} {
